@@ -6,6 +6,7 @@ import (
 	"fmt"
 	"math"
 	"os"
+	"reflect"
 	"unsafe"
 
 	"github.com/gopacket/gopacket"
@@ -218,11 +219,72 @@ func flowOf(l gopacket.Layer) (gopacket.Flow, bool) {
 	return gopacket.Flow{}, false
 }
 
+// fieldAddrs reads the layer's own exported address fields (SrcMAC/DstMAC, SrcIP/DstIP,
+// SrcPort/DstPort) as bytes; zero reports that both are unset.
+func fieldAddrs(l gopacket.Layer) (src, dst []byte, zero, ok bool) {
+	v := reflect.ValueOf(l)
+	if v.Kind() != reflect.Ptr || v.IsNil() || v.Elem().Kind() != reflect.Struct {
+		return
+	}
+	v = v.Elem()
+	get := func(name string) ([]byte, bool) {
+		f := v.FieldByName(name)
+		if !f.IsValid() {
+			return nil, false
+		}
+		switch f.Kind() {
+		case reflect.Slice:
+			if f.Type().Elem().Kind() == reflect.Uint8 {
+				return f.Bytes(), true
+			}
+		case reflect.Uint16:
+			return []byte{byte(f.Uint() >> 8), byte(f.Uint())}, true
+		}
+		return nil, false
+	}
+	for _, names := range [][2]string{{"SrcMAC", "DstMAC"}, {"SrcIP", "DstIP"}, {"SrcPort", "DstPort"}} {
+		a, oka := get(names[0])
+		b, okb := get(names[1])
+		if oka && okb {
+			zero = true
+			for _, x := range append(append([]byte(nil), a...), b...) {
+				if x != 0 {
+					zero = false
+				}
+			}
+			return a, b, zero, true
+		}
+	}
+	return
+}
+
 func layerFlows(c dspace.Case, w *enum.Worker) {
 	w.Guard("harness", func() {
 		in := corpus.Exact(c.Data)
 		p := gopacket.NewPacket(in, c.First.Dec, gopacket.DecodeOptions{NoCopy: true, DecodeStreamsAsDatagrams: true})
 		ls := p.Layers()
+		// every layer the packet lists - also the one whose decoder then reported an error, once it
+		// has filled in its address fields: flow and fields tell the same addresses
+		for idx, l := range ls {
+			f, ok := flowOf(l)
+			if !ok {
+				continue
+			}
+			fs, fd, zero, ok := fieldAddrs(l)
+			if !ok || zero {
+				continue
+			}
+			switch l.LayerType() {
+			case layers.LayerTypeEthernet, layers.LayerTypeIPv4, layers.LayerTypeIPv6, layers.LayerTypeTCP, layers.LayerTypeUDP, layers.LayerTypeUDPLite, layers.LayerTypeSCTP:
+			default:
+				continue
+			}
+			w.Count("layer_flows_against_fields", 1)
+			src, dst := f.Endpoints()
+			if !bytes.Equal(src.Raw(), fs) || !bytes.Equal(dst.Raw(), fd) {
+				w.Violation("c17|layer-flow-not-the-layers-address-fields|"+l.LayerType().String(), fmt.Sprintf("layer %d (%v) of the packet: flow %v, address fields src=%x dst=%x", idx, l.LayerType(), f, fs, fd))
+			}
+		}
 		if p.ErrorLayer() != nil && len(ls) > 0 {
 			ls = ls[:len(ls)-1]
 			if len(ls) > 0 {
